@@ -11,6 +11,7 @@ from ..analysis_scope import IDX, RAW, AnalysisInterp, analyse_function, analysi
 from ..core import Finding, Result, finding, norm_construct, register
 from ..heap import HeapInterp
 from ..model import AnalysisError, FuncInfo
+from ..structure import call_name, calls_in
 from ..poly import A, C, Frac, ONE, ZERO, mk_fn, mk_ite, mk_rd, mk_red, mk_sum
 
 B = ("bv", "B")
@@ -111,6 +112,9 @@ def check_movement(res: Result, repo):
         want = canon_carried({c for c in want if isinstance(c, tuple)})
         if got == want:
             res.ok(rule, {"function": name, "comparisons": _show(got)}, nontrivial=name)
+        elif not got and any(call_name(c_) in expected or call_name(c_) in mv.functions for c_ in calls_in(fa.fi.node)):
+            # nothing was seen at all although the function delegates to other movement functions: the callee could not be followed
+            res.errors.append(f"{fa.fi.where} {rule} {name}: no comparison on readings could be extracted through the movement functions it calls; the rule cannot decide it")
         else:
             res.fail(rule, finding("C17", rule, fa.fi, fa.fi.node, f"{name}: the comparisons on readings are [{_show(got)}]; the documented predicate needs exactly [{_show(want)}]", construct=f"{name}: comparisons {_show(got - want)[:120]} / missing {_show(want - got)[:120]}"[:190]))
     # cross: either direction; now strictly different, previously on the other side (or equal)
@@ -121,6 +125,8 @@ def check_movement(res: Result, repo):
         want |= {mk_cmp("<", rd(two, pos), rd(one, pos)), mk_cmp("<=", rd(one, pos - ONE), rd(two, pos - ONE)), mk_cmp(">", rd(two, pos), rd(one, pos)), mk_cmp(">=", rd(one, pos - ONE), rd(two, pos - ONE))}
     if got == want:
         res.ok(rule, {"function": "cross", "comparisons": _show(got)}, nontrivial="cross")
+    elif not got:
+        res.errors.append(f"{fa.fi.where} {rule} cross: no comparison on readings could be extracted (a scan loop / helper the interpreter cannot follow); the rule cannot decide it")
     else:
         res.fail(rule, finding("C17", rule, fa.fi, fa.fi.node, f"cross: comparisons [{_show(got)}] are not 'on one side now and on the other side (or equal) one candle earlier', in either direction", construct=f"cross: {_show(got ^ want)[:150]}"))
     # rising / falling / mean_*: window excludes the current candle, strict comparison against the latest reading
@@ -422,11 +428,15 @@ def pattern_clauses(repo, fi: FuncInfo):
         st.env[idx_vars[0]] = Num(A("sym", "i"))
     guard = None
     test = None
+    extra_terms = []  # `if not <term>: return False` guard clauses after the history guard: each is one conjunct of the predicate
     for s in body_stmts:
         if isinstance(s, ast.If) and all(isinstance(x, ast.Return) for x in s.body) and not s.orelse:
             r = s.body[0]
             if isinstance(r.value, ast.Constant) and r.value.value is False:
-                guard = it.expr(s.test, st)
+                if guard is None:
+                    guard = it.expr(s.test, st)
+                else:
+                    extra_terms.append(it.expr(ast.copy_location(ast.UnaryOp(op=ast.Not(), operand=s.test), s.test), st))
                 continue
             if isinstance(r.value, ast.Constant) and r.value.value is True:
                 test = it.expr(s.test, st)
@@ -438,13 +448,19 @@ def pattern_clauses(repo, fi: FuncInfo):
         if isinstance(s, ast.Return):
             if isinstance(s.value, ast.Constant) and s.value.value is False:
                 continue
+            if isinstance(s.value, ast.Constant) and s.value.value is True and extra_terms:
+                test = extra_terms.pop()
+                continue
             test = it.expr(s.value, st)
             continue
         raise AnalysisError(f"{fi.where}: unmodelled statement in the inner predicate of {fi.name}: {ast.unparse(s)[:60]}")
     if test is None:
         raise AnalysisError(f"{fi.where}: cannot find the predicate expression of {fi.name}")
     cond = it.truth(test, st, fi.node)
-    return guard, [canon_bv(c) if isinstance(c, tuple) else c for c in _flatten_and(cond)]
+    clauses = list(_flatten_and(cond))
+    for t_ in extra_terms:
+        clauses.extend(_flatten_and(it.truth(t_, st, fi.node)))
+    return guard, [canon_bv(c) if isinstance(c, tuple) else c for c in clauses]
 
 
 def ref_clauses(repo, fi: FuncInfo, name: str):
